@@ -307,3 +307,38 @@ func (c *Ctx) earlySuccessReturn(li *loopInfo) ssa.Instruction {
 	}
 	return found
 }
+
+// allSources: every source the value can come from (all phi edges, through value-preserving conversions) satisfies pred.
+func allSources(v ssa.Value, pred func(ssa.Value) bool) bool {
+	seen := map[ssa.Value]bool{}
+	var walk func(v ssa.Value) bool
+	walk = func(v ssa.Value) bool {
+		if v == nil {
+			return false
+		}
+		if seen[v] {
+			return true
+		}
+		seen[v] = true
+		if pred(v) {
+			return true
+		}
+		switch x := v.(type) {
+		case *ssa.Phi:
+			for _, e := range x.Edges {
+				if !walk(e) {
+					return false
+				}
+			}
+			return len(x.Edges) > 0
+		case *ssa.MakeInterface:
+			return walk(x.X)
+		case *ssa.ChangeInterface:
+			return walk(x.X)
+		case *ssa.ChangeType:
+			return walk(x.X)
+		}
+		return false
+	}
+	return walk(v)
+}
